@@ -95,6 +95,20 @@ def run(tier, seed):
         v = C.rename_scheme(u, DOTTED[:len(u["nodes"])]) if j % 5 == 1 else (C.rename_scheme(u, NUMERIC[:len(u["nodes"])]) if j % 5 == 3 else u)
         for cls in C.DAG_K + C.DAG_MIN:
             insts += variants(v, cls, rng, False, nx)
+    # the minimum searches with their own helper searches switched on (guessed weights: the helper model with given weights may
+    # become the answer, and it has one layer per guessed weight - more than the minimum needs)
+    for j, u in enumerate(dag_s + cyc_s + cyc4_s):
+        cycl = j >= len(dag_s)
+        cls = "MinFlowDecompCycles" if cycl else "MinFlowDecomp"
+        for opt in ({"optimize_with_guessed_weights": True}, {"optimize_with_guessed_weights": True, "optimize_with_greedy": False},
+                    {"use_min_gen_set_lowerbound": True, "optimize_with_greedy": False}):
+            if cycl and "optimize_with_greedy" in opt:
+                continue
+            for mode in (("edge", "node") if j % 3 == 0 else ("edge",)):
+                r = C.base(u, cls, mode)
+                r["wt"] = "int"
+                r["opt"] = dict(opt)
+                insts.append(r)
     for u in dag_s:
         if u["pweights"]:
             # weight supersets whose spare (unusable) candidates follow the needed ones: layers stay empty after non-empty ones
